@@ -93,6 +93,7 @@ func (ex *Ex) callFunction(fr *Frame, st *State, ins ssa.Instruction, callee *ss
 		return
 	}
 	if ctr != nil && !(ctr.Inline || forceInline) {
+		ex.frameArgsCheck(fr, st, ins, callee, args)
 		ex.callByContract(fr, st, ins, callee, ctr, args, k)
 		return
 	}
@@ -113,6 +114,7 @@ func (ex *Ex) callFunction(fr *Frame, st *State, ins ssa.Instruction, callee *ss
 		return
 	}
 	// unmodelled: typed havoc of the result
+	ex.frameArgsCheck(fr, st, ins, callee, args)
 	name := w.funcName(callee)
 	ex.note("unmodelled call (result havoced, assumed not to panic nor write tracked memory): " + name)
 	res, _ := ex.freshResults(shortFn(name), callee.Signature)
